@@ -13,11 +13,11 @@ from xml.sax.saxutils import escape as _sax_escape
 from harness.common import exc_token, tok_str
 from vk.core import Case, Ctx
 
-GEN_MODULES: List[str] = ["C06Types"]
+GEN_MODULES: List[str] = ["C06Types", "C08Types"]
 MANIFEST = {
     "design_ref": "§5 C06",
-    "text": ("Lean theorem c06_model_ok: for every declared action (any number of arguments of any type row that is "
-             "coercible, ranges, allowed lists), every caller assignment and both strictness modes, the model of "
+    "text": ("Lean theorem c06_model_ok: for every declared action (any number of arguments of any of the 26 generated type rows "
+             "- C08's data-type model and round-trip theorem -, ranges, allowed lists), every caller assignment and both strictness modes, the model of "
              "create_request/validate_arguments/_format_request_args satisfies the judge C06.ok: an accepted assignment yields "
              "exactly one POST to urljoin(device URL, controlURL) with SOAPAction \"type#action\", text/xml utf-8, Host = "
              "netloc, and a body that reads back (readEnvelope, proved inverse of the renderer: escape/xmlDecodeText round "
@@ -30,8 +30,8 @@ MANIFEST = {
              "long-lived device/service/action object (c06_history_ok: the model's request construction is a pure function "
              "of current description URL, control URL, action and assignment)."),
     "note": ("Trusted: Lean kernel + standard axioms; XML text<->tree of the real parser is sampled, not proved (readEnvelope "
-             "recognises only the shape the client emits); float() / parse_date_time are oracles (hypotheses in the theorems, "
-             "tables from the real primitives at run time); urljoin/netloc modelled on a restricted URL grammar; values at "
+             "recognises only the shape the client emits); values, coercers and schema are C08's model over the generated 26-row table; "
+             "floats abstract (repr/float()/<= tables from the real primitives at run time, one assumption float(repr(x))==x); urljoin/netloc modelled on a restricted URL grammar; values at "
              "second precision; action/argument names inside the XML-name domain (xmlNameOk); service types arbitrary."),
     "technique": "Lean 4 proof (model satisfies the judge for all inputs; renderer/recogniser inverse) + generated tables + model/implementation correspondence",
 }
@@ -48,7 +48,8 @@ ASSUMPTIONS = [
     "string values contain only characters legal in XML 1.0",
     "URLs follow scheme://netloc/path?query without dot segments or empty interior segments",
     "non-ASCII decimal digits (accepted by Python int()) are outside the model",
-    "float(repr(x)) == x and parse_date_time(v.isoformat()) == v are hypotheses of the decode theorem (sampled here; C08's subject)",
+    "float(repr(x)) == x (C08's single float assumption RoundTrips; floats are otherwise abstract: repr/float()/<= tables per case)",
+    "an object of no modelled class (list, bytes, dict, ...) is represented as None: like None it fails every isinstance test",
 ]
 TRUSTED = [
     "C06: real XML parser (defusedxml/expat) reading of the sent body is compared with the Lean recogniser on the sampled calls only",
@@ -83,31 +84,47 @@ def kind_of(t: str) -> str:
 
 # ---- value <-> token / JSON ---------------------------------------------------------------------
 
+def float_tok(v: float) -> str:
+    """`f:<hex repr>:<exact ratio>` (sign kept, so -0.0 is `-0/1`)"""
+    if math.isnan(v):
+        x = "nan"
+    elif math.isinf(v):
+        x = "inf" if v > 0 else "-inf"
+    else:
+        n, d = abs(v).as_integer_ratio()
+        x = f"{'-' if math.copysign(1.0, v) < 0 else ''}{n}/{d}"
+    return f"f:{tok_str(repr(v))}:{x}"
+
+
+def _off_tok(v) -> str:
+    if v.tzinfo is None:
+        return "~"
+    secs = v.utcoffset().total_seconds() if isinstance(v, datetime) else v.tzinfo.utcoffset(None).total_seconds()
+    assert secs % 60 == 0, "offsets are whole minutes"
+    return str(int(secs // 60))
+
+
 def val_tok(v: Any) -> str:
+    """C08's value domain: int, bool, float, str, date, datetime, time (second precision, whole-minute
+    offsets), None.  An object of any other class travels as None: like None it fails every isinstance
+    test of the schema, which is all the request path ever does with it."""
     if isinstance(v, bool):
         return "b:T" if v else "b:F"
     if isinstance(v, int):
         return f"i:{v}"
     if isinstance(v, float):
-        if math.isnan(v):
-            x = "nan"
-        elif math.isinf(v):
-            x = "inf" if v > 0 else "-inf"
-        else:
-            n, d = v.as_integer_ratio()
-            x = f"{n}/{d}"
-        return f"f:{tok_str(repr(v))}:{x}"
+        return float_tok(v)
     if isinstance(v, str):
         return "s:" + tok_str(v)
     if isinstance(v, datetime):
-        return f"d:DT:{'A' if v.tzinfo is not None else 'N'}:{tok_str(v.isoformat())}"
+        assert v.microsecond == 0
+        return f"DT:{v.year}.{v.month}.{v.day}.{v.hour}.{v.minute}.{v.second}:{_off_tok(v)}"
     if isinstance(v, date):
-        return f"d:D:N:{tok_str(v.isoformat())}"
+        return f"D:{v.year}.{v.month}.{v.day}"
     if isinstance(v, time):
-        return f"d:T:{'A' if v.tzinfo is not None else 'N'}:{tok_str(v.isoformat())}"
-    if v is None:
-        return "n"
-    return "o:" + tok_str(type(v).__name__)
+        assert v.microsecond == 0
+        return f"T:{v.hour}.{v.minute}.{v.second}:{_off_tok(v)}"
+    return "n"
 
 
 def val_json(v: Any) -> Any:
@@ -271,29 +288,26 @@ def tree_lines(body: Any) -> List[str]:
 
 
 def oracle_lines(decl: Dict[str, Any], texts_by_arg: Dict[str, List[str]]) -> List[str]:
-    from async_upnp_client.utils import parse_date_time
-
+    """the float oracle: `float(text)` for every text a float-typed argument can meet (declared
+    bounds / allowed values, the caller's floats rendered, what was sent / received)"""
     out = []
     seen = set()
     for a in decl["args"]:
-        k = kind_of(a["type"])
-        if k not in ("float", "dt"):
+        if kind_of(a["type"]) != "float":
             continue
         texts = list(texts_by_arg.get(a["name"], []))
         if a.get("range"):
             texts += [x for x in (a["range"].get("min"), a["range"].get("max")) if x is not None]
         texts += list(a.get("allowed") or [])
         for t in texts:
-            key = (k, t)
-            if key in seen:
+            if t in seen:
                 continue
-            seen.add(key)
+            seen.add(t)
             try:
-                v = float(t) if k == "float" else parse_date_time(t)
-                r = val_tok(v)
+                r = float_tok(float(t))
             except ValueError:
                 r = "!"
-            out.append(f"{'pf' if k == 'float' else 'pd'} {tok_str(t)} {r}")
+            out.append(f"pf {tok_str(t)} {r}")
     return out
 
 
@@ -362,8 +376,6 @@ def run_recipe(ctx: Ctx, recipe: Dict[str, Any], cid: str) -> Case:
         for n, v in kwargs.items():
             if isinstance(v, float):
                 texts.setdefault(n, []).append(repr(v))
-            elif isinstance(v, (date, time)):
-                texts.setdefault(n, []).append(v.isoformat())
         body = log[0][3] if log else None
         tl = tree_lines(body)
         if log and tl[0] != "tree ~":
@@ -435,7 +447,8 @@ STR_ALPHABETS = [
     "\u00e9\u65e5\u672c\U0001F600\u0085\u2028\ufffd\ud7ff\ue000",
     "a<b>&c\r\nd\re\n",
 ]
-TZS = [timezone.utc, timezone(timedelta(hours=1)), timezone(timedelta(hours=-5, minutes=-30)), timezone(timedelta(hours=23, minutes=59))]
+TZS = [timezone.utc, timezone(timedelta(hours=1)), timezone(timedelta(hours=-5, minutes=-30)), timezone(timedelta(hours=23, minutes=59)),
+       timezone(timedelta(hours=-23, minutes=-59)), timezone(timedelta(minutes=-1)), timezone(timedelta(hours=5, minutes=45))]
 
 
 def rand_name(rng) -> str:
@@ -451,7 +464,10 @@ def rand_str(rng) -> str:
 
 
 def rand_date(rng) -> date:
-    return date(rng.choice([1, 1970, 2000, 2024, 9999]), rng.randrange(1, 13), rng.randrange(1, 29))
+    y = rng.choice([1, 9, 99, 999, 1000, 1970, 2000, 2024, 9999, rng.randrange(1, 10000)])
+    m = rng.randrange(1, 13)
+    last = [31, 29 if (y % 4 == 0 and (y % 100 != 0 or y % 400 == 0)) else 28, 31, 30, 31, 30, 31, 31, 30, 31, 30, 31][m - 1]
+    return date(y, m, rng.choice([1, last, rng.randrange(1, last + 1)]))
 
 
 def rand_time(rng, aware=None) -> time:
@@ -505,6 +521,23 @@ def rand_arg_decl(rng, name: str, direction: str) -> Dict[str, Any]:
             a["range"] = {"min": rng.choice(["0", "-2.5"])}
         else:
             a["range"] = {"max": rng.choice(["10", "0.5"])}
+    if k == "dt" and rng.random() < 0.25:
+        # bounds / lists written in wire form (also with the spellings parse_date_time accepts)
+        def wire(aware):
+            if t == "date":
+                return rand_date(rng).isoformat()
+            if t.startswith("dateTime"):
+                return rand_datetime(rng, aware=aware).isoformat()
+            return rand_time(rng, aware=aware).isoformat()
+        aware = True if t.endswith(".tz") else (rng.random() < 0.5 if t != "date" else False)
+        if rng.random() < 0.6:
+            lo, hi = sorted([wire(aware), wire(aware)])
+            c = rng.random()
+            a["range"] = {"min": lo, "max": hi} if c < 0.6 else ({"min": lo} if c < 0.8 else {"max": hi})
+        else:
+            a["allowed"] = [wire(aware) for _ in range(rng.choice([1, 2, 3]))]
+    if k == "str" and rng.random() < 0.08:
+        a["range"] = rng.choice([{"min": "a", "max": "m"}, {"min": "B"}, {"max": "zz"}])
     if k == "str" and rng.random() < 0.4:
         a["allowed"] = rng.choice([["Master", "LF", "RF"], ["a", "a b", " c"], ["<x>", "&"], [], ["PLAY", "Play"], ["x\ry"]])
     elif k == "int" and rng.random() < 0.15:
@@ -566,6 +599,9 @@ def in_domain(a: Dict[str, Any], rng):
     try:
         if al:
             t = rng.choice(al)
+            if k == "dt":
+                from async_upnp_client.utils import parse_date_time
+                return parse_date_time(t)
             return int(t) if k == "int" else (float(t) if k == "float" else t)
         lo = r.get("min") or None
         hi = r.get("max") or None
@@ -581,6 +617,9 @@ def in_domain(a: Dict[str, Any], rng):
             if math.isinf(hi_f):
                 hi_f = lo_f + 1e6
             return rng.uniform(lo_f, hi_f)
+        if k == "dt":
+            from async_upnp_client.utils import parse_date_time
+            return parse_date_time(rng.choice([x for x in (lo, hi) if x is not None]))
     except ValueError:
         return None
     return None
